@@ -5,7 +5,7 @@ use super::Tier;
 use crate::monitor::{dtls_records, DtlsRecord, WireOracle};
 use crate::net::{addr, Rewriter, Shared};
 use crate::plan::*;
-use crate::rig::{dtls_state_name, layer_ep};
+use crate::rig::{dtls_state_name, layer_ep, layer_ep_chain};
 use crate::sim::{cert_der, Ctx};
 use bytes::Bytes;
 use rustrtc::transports::dtls::{DtlsState, DtlsTransport};
@@ -130,6 +130,30 @@ impl Rewriter for DtlsRewriter {
                 b.extend_from_slice(&((der.len() + 3) as u32).to_be_bytes()[1..]);
                 b.extend_from_slice(&(der.len() as u32).to_be_bytes()[1..]);
                 b.extend_from_slice(&der);
+                vec![hs_record(r, 0, &hs_msg(ty, msg_seq, b.len(), 0, &b))]
+            }
+            "append_cert" | "prepend_cert" => {
+                // a certificate list of two entries: the sender's own certificate(s) plus certificate a[0] of the pool
+                // (a public certificate anyone can copy) after / before them; only meaningful on a Certificate message
+                if ty != 11 || body.len() < 3 {
+                    return vec![data.to_vec()];
+                }
+                let own = &body[3..];
+                let der = cert_der(arg(0) as usize);
+                let mut extra = Vec::new();
+                extra.extend_from_slice(&(der.len() as u32).to_be_bytes()[1..]);
+                extra.extend_from_slice(&der);
+                let mut list = Vec::new();
+                if name == "append_cert" {
+                    list.extend_from_slice(own);
+                    list.extend_from_slice(&extra);
+                } else {
+                    list.extend_from_slice(&extra);
+                    list.extend_from_slice(own);
+                }
+                let mut b = Vec::new();
+                b.extend_from_slice(&(list.len() as u32).to_be_bytes()[1..]);
+                b.extend_from_slice(&list);
                 vec![hs_record(r, 0, &hs_msg(ty, msg_seq, b.len(), 0, &b))]
             }
             "empty_cert" => {
@@ -259,7 +283,14 @@ pub async fn run(ctx: &Ctx) {
     ctx.net.set_rewriter(Some(Box::new(DtlsRewriter)));
 
     let mut ea = layer_ep(ctx, "A", "B", true, cert_a, fp_a.clone()).await;
-    let mut eb = layer_ep(ctx, "B", "A", false, cert_b, fp_b.clone()).await;
+    // chain_b: the (impostor) server presents [own, claimed] (1) or [claimed, own] (2) - the claimed certificate is public,
+    // anyone can copy it into a Certificate message; only its private key is out of reach
+    let chain_b = match plan.knob("chain_b", 0) {
+        1 => Some((plan.knob("claimed_cert", 3) as usize, false)),
+        2 => Some((plan.knob("claimed_cert", 3) as usize, true)),
+        _ => None,
+    };
+    let mut eb = layer_ep_chain(ctx, "B", "A", false, cert_b, chain_b, fp_b.clone()).await;
     let dt = [ea.dtls.clone(), eb.dtls.clone()];
     let names = ["A", "B"];
 
@@ -405,8 +436,42 @@ pub async fn run(ctx: &Ctx) {
                         b.extend_from_slice(&junk[..junk.len().min(12)]);
                         rec(22, 0, &b)
                     }
+                    10 | 11 => {
+                        // a well-formed cleartext handshake message of a type and message_seq the target may be waiting
+                        // for (or have just passed): p1 selects type and message_seq, the body is junk of a plausible size
+                        const TYPES: [u8; 8] = [20, 11, 2, 1, 3, 16, 12, 14];
+                        let p1 = op.arg(2).max(0) as usize;
+                        let ty = TYPES[p1 % 8];
+                        let mseq = ((p1 / 8) % 8) as u16;
+                        let blen = match ty {
+                            20 => 12,
+                            3 => 3 + 20,
+                            14 => 0,
+                            _ => 40 + (p1 % 3) * 100,
+                        };
+                        let mut body = vec![0u8; blen];
+                        r.fill(&mut body);
+                        if ty == 3 {
+                            body[0] = 0xfe;
+                            body[1] = 0xfd;
+                            body[2] = 20;
+                        }
+                        rec(22, 0, &hs_msg(ty, mseq, blen, 0, &body))
+                    }
                     _ => junk.clone(),
                 };
+                if op.arg(1) == 10 || op.arg(1) == 11 {
+                    // Before the target has keys a cleartext handshake message is ordinary protocol input (anyone on the
+                    // path can race a handshake; the statement starts "once keys are negotiated"), and a forged one can
+                    // legitimately break the handshake later on - so these forgeries are only sent to a target that has
+                    // already emitted its own ChangeCipherSpec.
+                    let keyed = wire.lock().unwrap().ccs_at.contains_key(names[target]);
+                    if !keyed {
+                        ctx.stat("probe.hs_forgery_skipped_prekey", 1);
+                        continue;
+                    }
+                    ctx.stat(if dtls_state_name(&dt[target]) == "Connected" { "probe.hs_forgery_connected" } else { "probe.hs_forgery_transient" }, 1);
+                }
                 ctx.net.inject(from, to, &d);
                 injected += 1;
             }
@@ -666,6 +731,8 @@ pub fn generate(prop: &str, seed: u64, idx: u64, tier: Tier) -> Plan {
                 None,
                 Some(("replace_cert".into(), vec![3])),
                 Some(("replace_cert".into(), vec![2])),
+                Some(("append_cert".into(), vec![3])),
+                Some(("prepend_cert".into(), vec![3])),
                 Some(("empty_cert".into(), vec![])),
                 Some(("truncate_body".into(), vec![40])),
                 Some(("flip_body_bit".into(), vec![77])),
@@ -691,6 +758,13 @@ pub fn generate(prop: &str, seed: u64, idx: u64, tier: Tier) -> Plan {
                 // signaling promised cert 3's fingerprint; the actual peer holds another key; optionally an on-path
                 // party substitutes cert 3 into the Certificate message
                 p.knobs.insert("claimed_cert".into(), 3);
+                if victim == 0 {
+                    // the impostor may also present the claimed (public) certificate next to its own
+                    let c = if idx < core { (k / 8) % 3 } else { r.below(3) };
+                    if c > 0 {
+                        p.knobs.insert("chain_b".into(), c as i64);
+                    }
+                }
             }
             if let Some((name, a)) = rw {
                 let from = if tg == "DTLS:hs:client_key_exchange" { "A" } else { "B" };
@@ -726,6 +800,19 @@ pub fn generate(prop: &str, seed: u64, idx: u64, tier: Tier) -> Plan {
                 let at = if r.chance(30) { r.below(150) } else { r.range(150, 1500) };
                 p.ops.push(Op::new(at, "inject", &[r.below(2) as i64, r.below(10) as i64, r.below(200) as i64, r.below(2) as i64]));
             }
+            // cleartext handshake forgeries (type x message_seq) aimed at an endpoint that already has keys: a volley
+            // right after the handshake starts (to land between its ChangeCipherSpec and Connected) and some later
+            if r.chance(70) {
+                let t = r.below(2) as i64;
+                let start = r.below(120);
+                let step = r.range(1, 12);
+                for i in 0..r.range(2, 14) {
+                    p.ops.push(Op::new(start + i * step, "inject", &[t, 10, r.below(64) as i64, r.below(2) as i64]));
+                }
+                for _ in 0..r.below(6) {
+                    p.ops.push(Op::new(r.range(150, 1500), "inject", &[r.below(2) as i64, 10, r.below(64) as i64, r.below(2) as i64]));
+                }
+            }
             // bit-flip / truncation fans of genuine application records
             if r.chance(60) {
                 let stride = if tier == Tier::Thorough { *r.pick(&[1i64, 3, 7]) } else { *r.pick(&[13i64, 37, 101]) };
@@ -749,8 +836,8 @@ pub fn budget(prop: &str, tier: Tier) -> u64 {
     match (prop, tier) {
         ("C11", Tier::Quick) => ns + 1500 + 1500,
         ("C11", Tier::Thorough) => ns + ns * ns + 60_000,
-        ("C02", Tier::Quick) => 360 + 400,
-        ("C02", Tier::Thorough) => 360 + 20_000,
+        ("C02", Tier::Quick) => 440 + 400,
+        ("C02", Tier::Thorough) => 440 + 20_000,
         ("C03", Tier::Quick) => 1500,
         (_, _) => 40_000,
     }
